@@ -96,3 +96,31 @@ contract(DT + "replace_path", props=["C16", "C01"],
          },
          crosscheck=False,
          note="the result of replace_path satisfies the cached-flag invariant whenever the inputs do")
+
+
+# ---- path lookup (C16): is_valid_path and get_subtree walk the same path relation ----------------------------------
+# IsSub(t, path, k, r): following path[k:] from t ends in r (every index in range on the way)
+spec("IsSub", "t, path, k, r",
+     "(k >= len(path) and r == t) or (k < len(path) and t._DerivationTree__children is not None and 0 <= path[k] and "
+     "path[k] < len(t._DerivationTree__children) and IsSub(t._DerivationTree__children[path[k]], path, k + 1, r))",
+     types={"path": "Path"}, recursive=True)
+NONNEG = "forall(i, 0, len(path), path[i] >= 0)"
+contract(DT + "is_valid_path", props=["C16"], types={"self": RT, "path": "Path"}, closure={"p0": "Path"}, returns="Bool",
+         requires=f"p0 == path and {NONNEG}",
+         ensures={"valid_iff_every_index_in_range": "result == ValidFrom(self, p0, 0)"},
+         loops={0: dict(invariant="len(path) <= len(p0) and path == p0[len(p0) - len(path):] and "
+                                  "ValidFrom(self, p0, 0) == ValidFrom(curr_node, p0, len(p0) - len(path))",
+                        variant="len(path)")},
+         crosscheck=False,
+         note="child indices are natural numbers (Path); a negative index would be wrapped around by Python's indexing")
+contract(DT + "get_subtree", props=["C16"], types={"self": RT, "path": "Path"}, closure={"p0": "Path"},
+         returns=f"Opt[{RT}]",
+         requires=f"p0 == path and {NONNEG} and ValidFrom(self, p0, 0)",
+         ensures={"found": "result is not None", "is_the_node_at_the_path": "IsSub(self, p0, 0, result)"},
+         loops={0: dict(invariant="len(path) <= len(p0) and path == p0[len(p0) - len(path):] and "
+                                  "ValidFrom(curr_node, p0, len(p0) - len(path)) and "
+                                  "forall_sort(r, 'DerivationTree', IsSub(self, p0, 0, r) == "
+                                  "IsSub(curr_node, p0, len(p0) - len(path), r))",
+                        variant="len(path)")},
+         crosscheck=False,
+         note="on a valid path get_subtree returns the node that is_valid_path's walk ends in; @lru_cache dropped (pure)")
